@@ -654,6 +654,10 @@ def _check_explore_refusals(ctx, f, old):
             if isinstance(b, ast.ListComp) and isinstance(b.generators[0].iter, ast.Name) and b.generators[0].iter.id == f.params[2] \
                     and isinstance(b.elt, ast.Call) and ast.unparse(b.elt.func) == "Nibbles" and not b.generators[0].ifs:
                 SEG = name
+            elif isinstance(b, ast.Call) and isinstance(b.func, ast.Name) and b.func.id in ("list", "tuple") and len(b.args) == 1 and isinstance(b.args[0], ast.Call) \
+                    and isinstance(b.args[0].func, ast.Name) and b.args[0].func.id == "map" and len(b.args[0].args) == 2 \
+                    and ast.unparse(b.args[0].args[0]) == "Nibbles" and isinstance(b.args[0].args[1], ast.Name) and b.args[0].args[1].id == f.params[2]:
+                SEG = name  # list(map(Nibbles, segments)): the same validated list
     if SEG is None:
         ctx.unsure("refuse-nested:HexaryTrieFog.explore", f.loc(), "cannot find the validated segment list [Nibbles(s) for s in segments]")
         return
